@@ -43,7 +43,7 @@ def floors(tier):
             "path:sequential": 10 if q else 100, "path:parallel": 6 if q else 60, "workers_killed": 10 if q else 200, "reported_cycles_verified": 20 if q else 300,
             "timeout:0": 3, "timeout:1": 3, "timeout:2": 3, "timeout:-1": 3, "timeout:120": 3, "no_child_left_checked": 30 if q else 300,
             "monitor:clock_polls": 30, "tp_cp_compared": 30 if q else 300, "virtual_strikes": 40 if q else 600,
-            "completeness_checked_by_own_enumeration": 15 if q else 200, "structured_report_compared": 30 if q else 300, "parent_pauses_checked": 20 if q else 200}
+            "completeness_checked_by_own_enumeration": 15 if q else 200, "structured_report_compared": 30 if q else 300, "parent_pauses_checked": 20 if q else 200, "untimed_after_cut_short": 3 if q else 50}
 
 
 def plan(tier, seed):
@@ -567,6 +567,11 @@ def run_ordinary(spec, R, probes, d):
         open(fn, "w").write("\n".join(lines) + "\n")
         kid = digest(lines)
         base = {"kind": "ordinary", "isa": isa, "arch": arch, "lines": n, "kernel_id": kid, "path": "sequential" if n < 50 else "parallel", "kernel": "\n".join(lines)}
+        if c % 2 == 1:
+            # the very first analysis of this kernel in the process is one that is cut short at once; the untimed one that
+            # follows must be complete all the same (judged by the own enumeration)
+            one_run(probes, arch, fn, 0, R, dict(base, timeout=0, step="cut-short-first"))
+            R.count("untimed_after_cut_short")
         try:
             with time_limit(90):
                 full = one_run(probes, arch, fn, -1, R, dict(base, timeout=-1), expect_complete=True)
@@ -584,6 +589,8 @@ def run_ordinary(spec, R, probes, d):
             continue
         one_run(probes, arch, fn, 120, R, dict(base, timeout=120), reference=full, expect_complete=True)
         one_run(probes, arch, fn, krng.choice([0, 1, 2]), R, dict(base, timeout="small"), reference=full)
+        # and once more after the timed runs
+        one_run(probes, arch, fn, -1, R, dict(base, timeout=-1, step="after-timed-runs"), reference=full, expect_complete=True)
 
 
 def run_virtual(spec, R, probes, d):
